@@ -42,6 +42,10 @@ func c04Cases(seed int64, tier string) []core.Case {
 	for i, cfg := range []Ext4Cfg{{Size: 8 << 20}, {Size: 16 << 20, SPB: 8, Start: 1 << 20}} {
 		cs = append(cs, core.MkCase(fmt.Sprintf("fill-%d", i), "fill", seed+int64(i), ext4Case{Cfg: cfg, Mode: "fill"}))
 	}
+	cs = append(cs, core.MkCase("dirgrow-0", "dirgrow", seed, ext4Case{Cfg: Ext4Cfg{Size: 16 << 20}, Mode: "dirgrow", Steps: 60}))
+	if tier == "thorough" {
+		cs = append(cs, core.MkCase("dirgrow-1", "dirgrow", seed+1, ext4Case{Cfg: Ext4Cfg{Size: 64 << 20, SPB: 8, Start: 1 << 20}, Mode: "dirgrow", Steps: 400}))
+	}
 	return cs
 }
 
@@ -49,7 +53,7 @@ func init() {
 	core.Register(&core.Check{
 		ID:    "C04",
 		Level: "exploration",
-		Rule: "seeded operation histories on ext4 volumes created by the library (1/2/4 KiB blocks, with/without journal, metadata_csum or gdt_csum, single and multi-group, start 0 / 4 KiB / 1 MiB): mkdir, create, write at offsets that extend/overlap/leave a gap, append (several steps, so extent trees grow), symlinks with targets of 1..4095 bytes incl. 59/60/61, remove, chmod/chown/chtimes, rename (driven as a refusal), invalid calls, up to 3 open handles, fill-to-no-space/remove/refill; after every call all listings, contents, link targets and changed attributes are compared with an in-memory reference tree, live and periodically through a fresh ext4.Read of the image bytes; reading a file the library wrote must never fail, panic or stall (bounded read loop); non-trivial = history with >=1 accepted mutating call; distinct = distinct (config, executed history)",
+		Rule: "seeded operation histories on ext4 volumes created by the library (1/2/4 KiB blocks, with/without journal, metadata_csum or gdt_csum, single and multi-group, start 0 / 4 KiB / 1 MiB): mkdir, create, write at offsets that extend/overlap/leave a gap, append (several steps, so extent trees grow), symlinks with targets of 1..4095 bytes incl. 59/60/61, remove, chmod/chown/chtimes, rename (driven as a refusal), invalid calls, up to 3 open handles, fill-to-no-space/remove/refill, two directories of 150..240-character names growing block by block between file allocations (directory spanning many extents), thinned and regrown; after every call all listings, contents, link targets and changed attributes are compared with an in-memory reference tree, live and periodically through a fresh ext4.Read of the image bytes; reading a file the library wrote must never fail, panic or stall (bounded read loop); non-trivial = history with >=1 accepted mutating call; distinct = distinct (config, executed history)",
 		Assumptions: []string{"the truncating open and rename are outside the statement for ext4 (rename is driven only as a refusal)", "names are case-sensitive; a file with an open handle is only modified through that handle"},
 		MinSigs:   map[string]int{"quick": 30, "thorough": 400},
 		CPUSec:    900,
